@@ -33,7 +33,10 @@ def proto_runs(mode):
         extra = []
         if mode == "c09" and tier == "quick":
             extra = ["--a", "1"]
-        return [("main", ["--mode", mode] + extra + c) for c in cfgs(mt)]
+        runs = [("main", ["--mode", mode] + extra + c) for c in cfgs(mt)]
+        if mode in ("c02", "c03"):      # the same closure on the responder's second interface
+            runs += [("main", ["--mode", mode, "--b", "1", "--mtu", "1500", "--wifi", str(w)]) for w in (0, 1)]
+        return runs
     return f
 
 
